@@ -48,6 +48,22 @@ def base(name):
 ZERO = Lin()
 
 
+def root_of(m, b):
+    """the base symbol b is a fixed image (negation, endomorphism) of which free base point"""
+    f = getattr(m, 'grp_root', None)
+    return f(b) if f else b
+
+
+def eq_coeff(m, got, b, e):
+    """the coefficient of base b in `got` is e -- or b is, on this path, known to be the point at infinity (the code asked IsIdentity and
+    the answer is in the path condition), in which case every multiple of b is the same point"""
+    c = got.coeff(b) == e
+    zb = getattr(m, 'grp_zero', {}).get(root_of(m, b))
+    if zb is None:
+        return c
+    return z3.Or(m.bvlow.lo(tm.eq(zb, 1, 1)), c)
+
+
 def z3cond(low, c):
     """T Bool / python bool -> z3 Bool"""
     if isinstance(c, tm.T):
@@ -86,6 +102,27 @@ def install(m, endo=None):
     def newpt(lin):
         return X.Ptr(m.new_obj(None, tree=X.Abs('grp', lin), label='Point'), ())
     m.grp_get, m.grp_put, m.grp_new, m.grp_raw = get, put, newpt, raw
+    m.grp_zero = {}
+
+    def c_isidentity(m, a):
+        # The free abelian group does not say which combinations are the point at infinity.  Exact cases: the empty combination is;
+        # +-B for a base symbol B is iff B is, which is one more symbolic fact about the (arbitrary) base point: a 1-bit variable the code
+        # may branch on, and under which every multiple of B is the same point (eq_coeff).  Anything else has no image here.
+        p = get(a[0])
+        nz = {k: v for k, v in p.c.items() if not z3.is_true(z3.simplify(v == 0))}
+        if not nz:
+            return 1
+        if len(nz) == 1:
+            (b, v), = nz.items()
+            if z3.is_true(z3.simplify(z3.Or(v == 1, v == -1))):
+                r = root_of(m, b)
+                if r == 'G':
+                    return 0   # the generator is not the point at infinity
+                if r not in m.grp_zero:
+                    m.grp_zero[r] = tm.var('isid_' + r, 1)
+                return tm.zext(m.grp_zero[r], 64)
+        raise X.AbstractionBreach("IsIdentity of a computed point %r" % (p,))
+    m.contracts[PT + 'IsIdentity'] = c_isidentity
 
     def merge(c, a, b):
         if a.v is INVALID or b.v is INVALID:
